@@ -133,11 +133,14 @@ CHECKS = {
         "level": "Hypothesis-generated histories of parser creation (7 optimizer configurations, fixed and generated "
         "grammars), code generation and parsing executed in one process and compared, operation by operation, "
         "with fresh-process reference results; seeded thread schedules owned by a sys.monitoring LINE-event "
-        "cooperative scheduler compared with sequential results; free-running stress as a supplement.",
+        "cooperative scheduler compared with sequential results, focused contention schedules on one shared "
+        "object, and preemption-bounded EXHAUSTIVE schedules (every ordered pair of inputs of a group, the first "
+        "thread pre-empted at every single line of its parse by a whole parse of the second); free-running "
+        "stress as a supplement.",
         "note": "Trusted: fresh forked children of a pristine driver as the isolation reference. Races inside a "
         "single source line or inside the C regex module are out of reach.",
         "technique": "Hypothesis-generated operation histories with an isolation oracle + owned (seeded, "
-        "replayable) thread schedules",
+        "replayable) thread schedules, incl. exhaustive single-preemption schedules",
         "ref": "DESIGN.md 4 C15",
     },
     "C16": {
@@ -151,7 +154,8 @@ CHECKS = {
     "C08": {
         "level": "Metamorphic search on the 11 bundled grammars of the nine families: 1-3 random rewrites (six "
         "kinds) at random sites obtained from the meta-grammar oracle, corpus and mutated inputs, four modes; "
-        "outcome class and tree must equal those of the original grammar.",
+        "outcome class and tree must equal those of the original grammar; plus every nested pair of rewrites "
+        "(outer duplicating x inner, inside the first copy) at every site that touches the stack.",
         "note": "Trusted: span extraction by the meta-grammar oracle (every rewritten text is re-validated); NEVER "
         "is a private-use literal absent from all inputs.",
         "technique": "metamorphic testing with generated rewrite sequences over real grammars and a mutated "
@@ -185,7 +189,9 @@ CHECKS = {
         "spellings) against json.loads for both JSON grammars in four modes incl. rejection of proper "
         "prefixes; Hypothesis-generated arithmetic expressions printed from the documented precedence table "
         "against an independent evaluator for the three calculator implementations, regenerated from the "
-        "current tree with and without the optimizer.",
+        "current tree with and without the optimizer; plus a deterministic operator-interaction matrix (every "
+        "ordered triple of infix operators in a flat chain x one unary minus or factorial at each position: "
+        "1,125 expressions).",
         "note": "Trusted: json.loads, the 30-line reference evaluator, the documented precedence table in "
         "grammar_encoded_prec.pest.",
         "technique": "Hypothesis recursive generation, differential oracle against independent reference "
